@@ -490,6 +490,17 @@ def run(ctx: Context) -> None:
                     guard_ok = guard_ok and axis_none is True and name_none is True
                 else:
                     guard_ok = False
+            # the same question asked of the defaulting prologue as a whole: what is the linear dimension for each combination
+            # of `axis` / `linear_dimension` being given or not
+            from .common import none_case_values
+            cases = none_case_values(fi, ['axis', 'linear_dimension'], 'linear_dimension', call)
+            if cases is not None:
+                want = {(True, True): f"{da}.dims[-1]", (True, False): 'linear_dimension', (False, True): f"{da}.dims[axis]", (False, False): f"{da}.dims[axis]"}
+                by_cases = cases == want
+                if by_cases:
+                    ok5 = guard_ok = True
+                elif ok5 and guard_ok:
+                    pass
             ctx.check('R03.5', ok5 and guard_ok, "axis wins, then the given name, then the last dimension", fi, assigns[0] if assigns else call,
                       construct=f"linear dimension choices: {sorted(norm_text(a) for a in assigns)}")
             for r in fi.returns():
